@@ -193,6 +193,8 @@ class C05(BridgeProp):
                 sc["steps"] = [{"do": "start"}, {"do": "stop"}, {"do": "cycle"}] + sc["steps"]
             elif n % 4 == 3:    # ... or left through the context manager once
                 sc["steps"] = [{"do": "enter"}, {"do": "leave"}, {"do": "cycle"}] + sc["steps"]
+            # a remaining time or an auto-shutdown span is a duration, not a wall-clock time: the host's zone must not enter
+            sc["zone"] = ["UTC", "Asia/Jerusalem", "America/New_York", "Asia/Kolkata", "Pacific/Auckland", "America/St_Johns"][n % 6]
             out.append(sc)
         return out
 
